@@ -143,7 +143,7 @@ def run_cases(cases, jobs=None, workdir=None):
     with open(cin, "w") as f:
         for c in cases:
             f.write(json.dumps(c) + "\n")
-    sh([runner, "-j", str(jobs or NPROC), cin, cout], timeout=6 * 3600)
+    sh([runner, "-j", str(jobs or int(os.environ.get("VERIF_JOBS", NPROC))), cin, cout], timeout=6 * 3600)
     res = []
     with open(cout) as f:
         for line in f:
@@ -234,7 +234,7 @@ def tlc(module, cfg=None, spec_dir=SPEC, workers=None, timeout=1800, simulate=No
         jopts.append("-Dtlc2.tool.queue.IStateQueue=StateDeque")
     cmd = ["java"] + jopts + ["-cp", _TLC_JAR, "tlc2.TLC", "-metadir", os.path.join(work, "meta"),
                               "-config", cfgname]
-    cmd += ["-workers", str(workers or "auto")]
+    cmd += ["-workers", str(workers or os.environ.get("VERIF_TLC_WORKERS", "auto"))]
     if not deadlock:
         cmd += ["-deadlock"]
     if coverage:
